@@ -189,6 +189,51 @@ def interval_case(build, opts, kind):
         shutil.rmtree(d, ignore_errors=True)
 
 
+GEN_PROG = '''\
+import sys
+%(imp)s
+@profile
+def rows():
+    try:
+        yield 1
+        yield 2
+    finally:
+        x = 1          # clean-up of a generator that is still suspended when the program ends: it runs, so it is in the results
+        y = x + 1
+for row in rows():
+    %(ending)s
+'''
+
+
+def gen_case(build, kind, explicit):
+    d = tempfile.mkdtemp(prefix='c06g-', dir=SCRATCH_ROOT)
+    try:
+        imp = 'from line_profiler import profile' if explicit else ''
+        with open(os.path.join(d, 'prog.py'), 'w') as fh:
+            fh.write(GEN_PROG % {'imp': imp, 'ending': ENDINGS[kind]})
+        e = real_env(build)
+        if explicit:
+            e['LINE_PROFILE'] = '1'
+            cmd, out = [PY, 'prog.py'], 'profile_output.lprof'
+        else:
+            cmd, out = [PY, '-m', 'kernprof', '-l', 'prog.py'], 'prog.py.lprof'
+        p = subprocess.run(cmd, cwd=d, env=e, capture_output=True, text=True, timeout=120)
+        hits = None
+        if os.path.exists(os.path.join(d, out)):
+            q = subprocess.run([PY, '-c', 'import sys,json,line_profiler;s=line_profiler.load_stats(sys.argv[1]);'
+                                'print(json.dumps({k[2]: sorted([l-k[1],h] for l,h,t in v) for k,v in s.timings.items()}))', out],
+                               cwd=d, env=e, capture_output=True, text=True)
+            try:
+                hits = json.loads(q.stdout.strip().splitlines()[-1])
+            except Exception:
+                hits = {'unloadable': q.stderr[-300:]}
+        return {'rc': p.returncode, 'hits': hits, 'stderr_tail': p.stderr[-300:]}
+    finally:
+        shutil.rmtree(d, ignore_errors=True)
+
+
+# rows(): decorator line 0, def 1, try 2, yield 3, (yield 4 not reached), finally 5, clean-up lines 6 and 7
+GEN_EXPECTED = {'rows': [[2, 1], [3, 1], [6, 1], [7, 1]]}
 THREAD_EXPECTED = {'worker': [[2, 1], [3, 1], [4, 1], [5, 1]], 'main_part': [[2, 1], [3, 1], [4, 1], [5, 1]]}
 
 
@@ -289,6 +334,15 @@ def run(ctx):
             ctx.fail('two threads: the results written at the end do not hold every executed line of both profiled functions',
                      {'finding_class': None, 'thread_case': {'kind': kind, 'explicit_profiler': explicit}, 'hits_reported': r['hits'], 'hits_executed': THREAD_EXPECTED, 'real': r})
     ctx.coverage['thread_cases'] = len(tcs)
+    # a profiled generator still suspended (inside try/finally) when the program is ended from outside it
+    gcs = [(k, x) for k in ('exit', 'kbint') for x in (False, True)]
+    with cf.ThreadPoolExecutor(max_workers=8) as ex:
+        gres = list(ex.map(lambda c: gen_case(build, *c), gcs))
+    for (kind, explicit), r in zip(gcs, gres):
+        if r['hits'] != GEN_EXPECTED:
+            ctx.fail('the clean-up lines of a generator that was suspended when the program ended ran, but are not in the results',
+                     {'finding_class': None, 'generator_case': {'kind': kind, 'explicit_profiler': explicit}, 'hits_reported': r['hits'], 'hits_executed': GEN_EXPECTED, 'real': r})
+    ctx.coverage['suspended_generator_cases'] = len(gcs)
     # -i: a periodic dump in the middle of the run
     ics = [(o, k) for o in ([], ['-b'], ['-l']) for k in (('none', 'exit') if not ctx.quick else ('none',))] + [([], 'exit')]
     with cf.ThreadPoolExecutor(max_workers=8) as ex:
@@ -299,7 +353,7 @@ def run(ctx):
                                                                                          'recorded': r['recorded'], 'executed': [['early', 1], ['late', 2]], 'real': r})
     ctx.coverage['interval_cases'] = len(ics)
     ctx.coverage.update({
-        'evaluations': len(scs) + len(cli) + len(tcs) + len(ics), 'distinct_nontrivial': len(nontrivial),
+        'evaluations': len(scs) + len(cli) + len(tcs) + len(ics) + len(gcs), 'distinct_nontrivial': len(nontrivial),
         'rule': '9 run modes x {normal end, sys.exit, KeyboardInterrupt, uncaught ValueError} x crash point k of a loop of n=5 (quick: 3 points; thorough: every k in -1..n) '
                 '+ random (n, k, -i / -v) + one real process per (mode, ending) through `python -m kernprof` and through LINE_PROFILE=1 + a two-thread program per ending; '
                 'non-trivial = the program really ends at the crash point',
